@@ -472,6 +472,47 @@ def c18_run(ctx):
             if a != b:
                 ctx.disagreements.append({"cfg": cfg.cfg_line()[:100], "case": a[0]})
                 break
+    # memcheck pass: the same harness under valgrind, the memory an instance is built over marked indeterminate
+    # ("no read of an indeterminate value"): a never-initialised member or stack temporary that is later read is
+    # reported at the read, whatever byte happens to be there
+    mc_cfgs = cfgs if ctx.thorough else cfgs[:3]
+
+    def memcheck_one(cfg):
+        exe, logtxt = MM.build(cfg, memcheck=True)
+        if exe is None:
+            return {"what": "memcheck machine harness does not compile: " + cfg.cfg_line()[:100], "log": "\n".join([l for l in logtxt.split("\n") if "error" in l][:8])}, 0
+        import zlib
+        rng = random.Random(ctx.seed * 7919 + zlib.crc32(cfg.cfg_line().encode()) % 10007)
+        cases = [MM.gen_case(rng, cfg, "m%d" % k, rng.randint(8, 24)) for k in range(60 if ctx.thorough else 18)]
+        if cfg.plans:
+            cases += [MM.statusfirst_case(rng, cfg, "msf%d" % k) for k in range(16 if ctx.thorough else 5)]
+            cases += [MM.reactivation_case(rng, cfg, "mra%d" % k) for k in range(16 if ctx.thorough else 5)]
+
+        def vg(cs, t=600):
+            import subprocess
+            try:
+                return C.run(["valgrind", "-q", "--error-exitcode=9", "--track-origins=yes", exe], input="\n".join(l for c in cs for l in c) + "\n", timeout=t)
+            except subprocess.TimeoutExpired:
+                return -999, ""
+        rc, out = vg(cases)
+        if rc in (0, -999):
+            return None, len(cases)
+        bad, txt = None, out
+        for c in cases:
+            rc1, out1 = vg([c], 120)
+            if rc1 not in (0, -999):
+                bad, txt = c, out1
+                break
+        err = [l for l in txt.split("\n") if l.startswith("==")][:14]
+        return {"what": "valgrind memcheck reports an error in the machine harness (memory under a fresh instance counted as indeterminate): "
+                        + (err[0] if err else "rc=%s" % rc), "valgrind": err, "cfg": cfg.cfg_line(), "minimal_case": bad}, len(cases)
+    with ThreadPoolExecutor(max_workers=C.NCPU) as ex:
+        mres = list(ex.map(memcheck_one, mc_cfgs))
+    ctx.extra["memcheck"] = {"configurations": len(mc_cfgs), "cases": sum(n for _, n in mres), "errors": sum(1 for f, _ in mres if f)}
+    ctx.stats["evaluations"] += sum(n for _, n in mres)
+    for f, _ in mres:
+        if f:
+            ctx.failures.append(f)
     lay, rows = P.layout_check()
     ctx.extra["layout_rows"] = rows[:4]
     if lay:
@@ -510,7 +551,7 @@ REGISTRY = {
     "C15": Spec("FFSM2.Props.C15", ["layers"], c15_run),
     "C20": Spec("FFSM2.Props.C20", ["contain", "buffers"], container_run(["bitarray", "static", "dynamic"])),
     "C10": Spec("FFSM2.Props.C10", ["config", "ids"], c10_run, extra=("FFSM2.Props.History", "FFSM2.Props.PlanHistory")),
-    "C18": Spec("FFSM2.Props.C18", [], c18_run, level="other", explanation="Partial by nature: a theorem about a model cannot exhibit heap allocation or undefined behaviour of compiled C++. Executed here: both correspondence harnesses rebuilt with ASan+UBSan (-fno-sanitize-recover=all) and run on generated in-contract histories (payloads of alignment 1/8/16, plans at full capacity, n=1..7 quick / up to 64 thorough); an allocation probe that wraps malloc/calloc/realloc/free and operator new/delete around a scenario touching the whole API; thorough: nm -u symbol scan. The model-side index/range/alignment theorems are listed in DESIGN.md §9 C18."),
+    "C18": Spec("FFSM2.Props.C18", [], c18_run, level="other", explanation="Partial by nature: a theorem about a model cannot exhibit heap allocation or undefined behaviour of compiled C++. Executed here: both correspondence harnesses rebuilt with ASan+UBSan (-fno-sanitize-recover=all) and run on generated in-contract histories (payloads of alignment 1/8/16, plans at full capacity, n=1..7 quick / up to 64 thorough); a valgrind memcheck pass of the machine harness with the memory under every fresh instance marked indeterminate; an allocation probe that wraps malloc/calloc/realloc/free and operator new/delete around a scenario touching the whole API; thorough: nm -u symbol scan. The model-side index/range/alignment theorems are listed in DESIGN.md §9 C18."),
     "C19": Spec("FFSM2.Props.C19", [], c19_run, level="other", explanation="Partial by nature: 'compiles under every switch/standard/compiler' and 'the shipped header equals the amalgamation' are facts about files and compilers. Executed here: -fsyntax-only of an API-instantiating TU under all 256 switch combinations + FFSM2_ENABLE_ALL (quick: g++ C++11 and clang++ C++20; thorough: 2 compilers x 4 standards); tools/join.py re-run on a scratch copy and byte-compared; a feature-free scenario run under 8 (thorough 16) feature subsets + STRUCTURE_REPORT/DEBUG_STATE_TYPE/DISABLE_TYPEINDEX whose projected traces must be identical and equal to the model's."),
     "C01": Spec("FFSM2.Props.C01", ["ids"], machine_run("C01"), extra=("FFSM2.Props.History",)),
     "C02": Spec("FFSM2.Props.C02", ["ids", "config"], machine_run("C02", ("random", "pingpong")), extra=("FFSM2.Props.History", "FFSM2.Props.OutcomeHistory")),
